@@ -36,6 +36,7 @@ def run(ctx, report):
     report.section("WebVTT arithmetic", webvtt_arithmetic, ctx, report, folder)
     report.section("verbatim cue settings", verbatim, ctx, report, folder)
     report.section("fallback order", fallback, ctx, report)
+    report.section("default before use", default_before_use, ctx, report)
     report.section("keys and splitting", keys_and_split, ctx, report)
     report.not_decided.append("effective layout per visible character after DFXP write + read (needs the parser)")
 
@@ -330,6 +331,47 @@ def fallback(ctx, report):
     ok = "region_id = self._region_map.get(layout_info)" in t and "region_id = DFXP_DEFAULT_REGION_ID" in t \
         and "if not region_id:" in t
     report.check(ok, "R-GUARD", fn, "an unknown layout falls back to the default region id", None, "4")
+
+
+def default_before_use(ctx, report):
+    """WebVTT's language-level fallback layout (self.global_layout) must be looked up for the
+    language that is actually written: every read of the `lang` parameter happens after the
+    statement that replaces its None default."""
+    n_inst = 0
+    for path, q in ((VTT, "WebVTTWriter.write"),):
+        fn = ctx.index.get_function(path, q)
+        report.covered(fn)
+        a = fn.node.args
+        pos = a.posonlyargs + a.args
+        defaults = dict(zip([p.arg for p in pos[len(pos) - len(a.defaults):]], a.defaults))
+        for p, d in defaults.items():
+            if not (isinstance(d, ast.Constant) and d.value is None):
+                continue
+            body = [st for st in fn.node.body]
+            at = None
+            for i, st in enumerate(body):
+                if isinstance(st, ast.If) and src(st.test) in (f"{p} is None", f"not {p}", f"{p} == None") \
+                        and any(isinstance(x, ast.Assign) and src(x.targets[0]) == p for x in st.body):
+                    at = i
+                    break
+                if isinstance(st, ast.Assign) and src(st.targets[0]) == p and re.match(rf"{p} or |{p} if {p}", src(st.value)):
+                    at = i
+                    break
+            if at is None:
+                continue
+            n_inst += 1
+            early = []
+            for st in body[:at]:
+                for x in ast.walk(st):
+                    if isinstance(x, ast.Name) and x.id == p and isinstance(x.ctx, ast.Load):
+                        early.append(short(st, 90))
+                        break
+            report.check(not early, "R-ORDER", (fn, body[at]),
+                         f"`{p}` is read only after its None default has been replaced (the language-level layout "
+                         "fallback is looked up for the language that is written)",
+                         {"statements_reading_it_too_early": early}, "4")
+    if n_inst == 0:
+        raise AnalysisError("WebVTTWriter.write: defaulting of `lang` not found")
 
 
 def keys_and_split(ctx, report):
